@@ -30,6 +30,8 @@ pub struct Model {
     pub ttl: u16,
     /// emissions made from at_sim_end (never dispatched; they must not reach a later simulation): 0 none, 1 schedule_in, 2 send
     pub end_emit: Vec<u8>,
+    /// per module: number of tasks that sleep to common deadlines (three rounds) and draw a random value when they wake
+    pub same_deadline_tasks: Vec<usize>,
 }
 
 pub fn gen_model(model_seed: u64) -> Model {
@@ -44,6 +46,7 @@ pub fn gen_model(model_seed: u64) -> Model {
         jitter_ns: *rng.pick(&[0u64, MS, 20 * MS]),
         ttl: 2 + rng.below(8) as u16,
         end_emit: (0..n).map(|_| if rng.chance(1, 3) { 1 + rng.below(2) as u8 } else { 0 }).collect(),
+        same_deadline_tasks: (0..n).map(|_| if rng.chance(1, 3) { 2 + rng.usize_below(7) } else { 0 }).collect(),
     }
 }
 
@@ -95,6 +98,18 @@ impl Module for Node {
                     let d: u64 = des::runtime::sample(Uniform::new(1u64, 9 * MS).unwrap());
                     sleep(Duration::from_nanos(d)).await;
                     tr(format!("{} {me2} inc{inc} woke after {d}", now()));
+                }
+            });
+        }
+        for w in 0..self.model.same_deadline_tasks[self.idx] {
+            // several tasks of one module wake at the same instant: their order is part of the history
+            let me2 = me.clone();
+            let start = now() as u64;
+            tokio::spawn(async move {
+                for round in 1..=3u64 {
+                    des::time::sleep_until(SimTime::from_duration(Duration::from_nanos(start + round * 4 * MS))).await;
+                    let r: u64 = des::runtime::random();
+                    tr(format!("{} {me2} inc{inc} worker {w} round {round} drew {r}", now()));
                 }
             });
         }
